@@ -157,6 +157,7 @@ type targetSpec struct {
 	DocV      int       `json:"doc_v,omitempty"`
 	CommentV  int       `json:"comment_v,omitempty"`
 	SelfParam bool      `json:"self_param,omitempty"`
+	GlobDirs  []string  `json:"glob_dirs,omitempty"`    // sources += glob(["<dir>/*.txt"]) for each
 	DepSpell  []int     `json:"dep_spelling,omitempty"` // per dependency: 0 canonical, 1 "//pkg/:name", 2 "//pkg//:name", 3 listed twice (canonical + variant 1)
 	ReadsDeps bool      `json:"reads_deps,omitempty"`   // the body reads its dependencies' generated files (their paths are literals in its code)
 }
@@ -418,8 +419,12 @@ func (p *projSpec) renderTarget(t *targetSpec) string {
 	if len(t.Deps) > 0 {
 		kw = append(kw, "deps="+quoteList(t.spelledDeps()))
 	}
-	if len(t.Sources) > 0 {
-		kw = append(kw, "sources="+quoteList(t.Sources))
+	if len(t.Sources) > 0 || len(t.GlobDirs) > 0 {
+		src := quoteList(t.Sources)
+		for _, g := range t.GlobDirs {
+			src += fmt.Sprintf(" + glob([%q])", g+"/*.txt")
+		}
+		kw = append(kw, "sources="+src)
 	}
 	if len(t.Generates) > 0 {
 		kw = append(kw, "generates="+quoteList(t.Generates))
@@ -618,6 +623,9 @@ func (p *projSpec) bodySpecs(root string) map[string]*bodySpec {
 		b := &bodySpec{Yields: t.Yields, Text: t.Text}
 		for _, s := range t.Sources {
 			b.Sources = append(b.Sources, abs(t.Pkg, s))
+		}
+		for _, g := range t.GlobDirs {
+			b.Globs = append(b.Globs, abs(t.Pkg, g))
 		}
 		for _, g := range t.Generates {
 			b.Outs = append(b.Outs, abs(t.Pkg, g))
